@@ -17,6 +17,7 @@
 #include <gnu_gama/xml/gkfparser.h>
 #include <gnu_gama/local/acord/acord2.h>
 #include <gnu_gama/local/test_linearization_visitor.h>
+#include <gnu_gama/local/language.h>
 #include <fstream>
 #include <sys/mman.h>
 #include <sys/wait.h>
@@ -99,7 +100,7 @@ static bool same(const Answer& a, const Answer& b) {
 struct Op { std::string name; int kind; int a = 0, b = 0; bool config = false; int cslot = -1, cval = 0; };
 enum { K_UNK, K_RES, K_SSQ, K_DEF, K_QXX, K_QBB, K_Q0XX, K_LINDEP, K_MINX_ALL, K_MINX_S, K_RESET, K_SETALG, K_QBX, K_ADJ_X, K_ADJ_R, K_ADJ_RTR,
        N_SOLVE, N_RES, N_VWV, N_DOF, N_NULL, N_M0, N_NUNK, N_NOBS, N_QXX, N_QBB, N_STDOBS, N_WCOEF, N_STDRES, N_STUD, N_OBSCTL, N_UNKSTD, N_ELL, N_LINDEP, N_COND, N_CONF, N_HUGE, N_CONN, N_M0POST,
-       N_SETALG, N_UPD, N_M0TYPE, N_CONFPR, N_STATUS, N_UNKTAB };
+       N_SETALG, N_UPD, N_M0TYPE, N_CONFPR, N_STATUS, N_UNKTAB, N_OBSACT };
 
 static uint64_t hvec(const double* p, int n, uint64_t h) { for (int i = 0; i < n; i++) h = hround(p[i], h); return h; }
 template <class V> static uint64_t hv(const V& v, uint64_t h = 1469598103934665603ULL) { int n = v.dim(); h = fnv(&n, sizeof n, h); return n ? hvec(v.begin(), n, h) : h; }
@@ -261,6 +262,7 @@ struct NetTarget : Target {
   int cfg_m0 = 1;      // 1 aposteriori (default) 0 apriori
   int cfg_cp = 0;      // index into conf-pr menu
   int cfg_st = 0;      // 0 = status as in the input, 1 = first / 2 = last free xy point fixed (PD status changed + update_points)
+  int cfg_ob = 0;      // 0 = observations as in the input, 1 = first observation passive, 2 = whole first cluster passive (+ update_observations)
   bool orig_constrained = false, last_constrained = false;
   NetTarget(const Problem& pp) : Target(pp) {
     net.reset(new LocalNetwork);
@@ -283,21 +285,22 @@ struct NetTarget : Target {
   std::string key() override {
     LocalNetwork& n = *net;
     std::ostringstream o;
-    o << cfg_alg << "/" << cfg_m0 << "/" << cfg_cp << "/" << cfg_st << " N f" << n.tst_redbod_ << n.tst_redmer_ << n.tst_rov_opr_ << n.tst_vyrovnani_ << " a" << n.algorithm_ << " t" << (int)n.typ_m_0_ << " c" << n.konf_pr_;
+    o << cfg_alg << "/" << cfg_m0 << "/" << cfg_cp << "/" << cfg_st << "/" << cfg_ob << " N f" << n.tst_redbod_ << n.tst_redmer_ << n.tst_rov_opr_ << n.tst_vyrovnani_ << " a" << n.algorithm_ << " t" << (int)n.typ_m_0_ << " c" << n.konf_pr_;
     if (n.tst_rov_opr_) o << " A" << std::hex << (hm(n.A) & 0xffffff) << " b" << (hv(n.b) & 0xffffff) << std::dec;
     if (n.tst_vyrovnani_) o << " r" << std::hex << (hv(n.r) & 0xffffff) << " s" << (hv(n.sigma_L) & 0xffffff) << " w" << (hv(n.vahkopr) & 0xffffff) << " p" << (hround(n.suma_pvv_, 7) & 0xffffff) << std::dec;
     o << " rm" << n.removed_points.size() << " | " << key_base(n.least_squares);
     return o.str();
   }
   bool risky(const Op& op) override { return !op.config && !net->tst_vyrovnani_; }
-  std::vector<int> cfgv() const override { return {cfg_alg, cfg_m0, cfg_cp, cfg_st}; }
+  std::vector<int> cfgv() const override { return {cfg_alg, cfg_m0, cfg_cp, cfg_st, cfg_ob}; }
   Answer apply(const Op& op) override {
     static const char* AN[4] = {"envelope", "gso", "svd", "cholesky"};
     static const double CP[2] = {0.95, 0.80};
     LocalNetwork& n = *net;
     return guarded([&](Answer& a) {
       // indexed queries are only meaningful inside the current dimensions (a status change shrinks them)
-      switch (op.kind) {
+      // (asked only after a status change: unknowns_count() is itself a query that prepares the network)
+      if (cfg_st != 0 || cfg_ob != 0) switch (op.kind) {
         case N_QXX: case N_UNKSTD: case N_LINDEP:
           if (op.a > n.unknowns_count() || op.b > n.unknowns_count()) { a.exc = "index-beyond-unknowns"; return; }
           break;
@@ -346,6 +349,22 @@ struct NetTarget : Target {
             n.update_points(); cfg_st = op.a; a.isvoid = true;
           }
           break;
+        case N_OBSACT: {
+          // the set of active observations changes on the live object (what remove_huge_abs_terms / an editor does)
+          bool first = true;
+          // a network whose only cluster is switched off loses all its points in the revision; bringing them back
+          // is update_points()'s job, not update_observations()'s: the whole-cluster case needs a second cluster
+          if (op.a == 2 && n.OD.clusters.size() < 2) { a.isvoid = true; return; }
+          if (!n.OD.clusters.empty()) {
+            auto* c = n.OD.clusters.front();
+            for (auto* ob : c->observation_list) {
+              bool passive = (op.a == 2) || (op.a == 1 && first);
+              if (passive) ob->set_passive(); else ob->set_active();
+              first = false;
+            }
+          }
+          n.update_observations(); cfg_ob = op.a; a.isvoid = true;
+          break; }
         case N_UNKTAB: {
           int nu = n.unknowns_count(); a.v.push_back(nu);
           for (int i = 1; i <= nu; i++) { a.v.push_back((double)n.unknown_type(i)); std::string id = n.unknown_pointid(i).str(); a.v.push_back((double)(fnv(id.data(), id.size()) % 1000003)); }
@@ -368,6 +387,7 @@ static std::vector<Op> make_ops(const Problem& p, int kind) {
       case N_M0TYPE: o.cslot = 1; o.cval = a; break;
       case N_CONFPR: o.cslot = 2; o.cval = a; break;
       case N_STATUS: o.cslot = 3; o.cval = a; break;
+      case N_OBSACT: o.cslot = 4; o.cval = a; break;
       default: break;
     }
     ops.push_back(o);
@@ -390,6 +410,8 @@ static std::vector<Op> make_ops(const Problem& p, int kind) {
     add("set_m_0_apriori", N_M0TYPE, 0, 0, true); add("set_m_0_aposteriori", N_M0TYPE, 1, 0, true);
     add("conf_pr(0.95)", N_CONFPR, 0, 0, true); add("conf_pr(0.80)", N_CONFPR, 1, 0, true);
     add("unknown_table", N_UNKTAB);
+    add("first observation := passive + update_observations", N_OBSACT, 1, 0, true); add("first cluster := passive + update_observations", N_OBSACT, 2, 0, true);
+    add("all observations of the first cluster := active + update_observations", N_OBSACT, 0, 0, true);
     add("status(first free xy point := fixed)+update_points", N_STATUS, 1, 0, true); add("status(last free xy point := fixed)+update_points", N_STATUS, 2, 0, true); add("status(as in input)+update_points", N_STATUS, 0, 0, true);
     return ops;
   }
@@ -429,6 +451,19 @@ struct Explorer {
   long long transitions = 0, states = 0, maxdepth = 0;
   Explorer(const Problem& pp, int k, int as) : p(pp), kind(k), adj_subset(as), ops(make_ops(pp, k)) {}
 
+  // LocalNetwork: the configuration space alg x m0 x conf-pr x point status x observation activity (144) is explored
+  // as four sub-alphabets, each a complete BFS run in parallel (adj_subset carries the family); the thorough tier adds
+  // the full product.  The op list (and so the replay indices) is the same in every family.
+  bool enabled(const Op& o) const {
+    if (kind != 5) return true;
+    switch (adj_subset) {
+      case 0: return o.kind != N_STATUS && o.kind != N_OBSACT;                          // alg x m0 x conf-pr
+      case 1: return o.kind != N_M0TYPE && o.kind != N_CONFPR && o.kind != N_OBSACT;    // alg x status
+      case 2: return o.kind != N_M0TYPE && o.kind != N_CONFPR && o.kind != N_STATUS;    // alg x observation activity
+      case 3: return o.kind != N_M0TYPE && o.kind != N_CONFPR && o.kind != N_SETALG;    // status x observation activity
+      default: return true;                                                             // full product
+    }
+  }
   std::string histstr(const std::vector<int>& h) { std::string s; for (size_t i = 0; i < h.size(); i++) { if (i) s += ","; s += ops[h[i]].name; } return s; }
   std::string casestr(const std::vector<int>& h, int op) {
     std::string s = std::string(KIND[kind]) + (kind == 4 ? "/S" + std::to_string(adj_subset) : "") + ";" + pname + ";";
@@ -501,6 +536,7 @@ struct Explorer {
         if (rep == 0) k0 = k; else if (k != k0) V(std::string("C04|nondeterministic-replay|") + KIND[kind], casestr(h, -1), "key " + k0 + " vs " + k);
       }
       for (int oi = 0; oi < (int)ops.size(); oi++) {
+        if (!enabled(ops[oi])) continue;
         snprintf(crumb, 4000, "%s", casestr(h, oi).c_str());
         auto t = fresh(p, kind, adj_subset);
         for (int x : h) t->apply(ops[x]);
@@ -597,6 +633,7 @@ static void emit_child_counters() {
 
 int main(int argc, char** argv) {
   parse_args(argc, argv);
+  GNU_gama::local::set_gama_language(GNU_gama::local::en);   // exception texts of LocalNetwork need a language
   crumb = (char*)mmap(nullptr, 4096, PROT_READ | PROT_WRITE, MAP_SHARED | MAP_ANONYMOUS, -1, 0);
   crumb[0] = 0;
   if (!ctx().replay.empty()) {
@@ -627,6 +664,7 @@ int main(int argc, char** argv) {
       if ((kind == 5) != !P[pi].gkf.empty()) continue;
       if (P[pi].corr && kind != 4) continue;
       int nsub = (kind == 4) ? (1 + (int)P[pi].subsets.size()) : 1;   // Adj: regularisation comes with the input data
+      if (kind == 5) nsub = thorough() ? 5 : 4;                        // LocalNetwork: sub-alphabets, see Explorer::enabled
       for (int s = 0; s < nsub; s++) {
         unit++;
         if (!mine(unit)) continue;
@@ -635,7 +673,7 @@ int main(int argc, char** argv) {
         pid_t c = fork();
         if (c == 0) {
           ctx().counters.clear(); ctx().outcomes.clear();
-          Explorer ex(P[pi], kind, s - 1); ex.pname = P[pi].name;
+          Explorer ex(P[pi], kind, kind == 5 ? s : s - 1); ex.pname = P[pi].name;
           ex.run();
           if (ctx().samples < 1) X(std::string(KIND[kind]) + " on " + P[pi].name + ": " + std::to_string(ex.states) + " states, " + std::to_string(ex.transitions) + " transitions, ops=" + std::to_string(ex.ops.size()));
           emit_child_counters();
